@@ -108,6 +108,7 @@ PROPS = {
     },
     "C14": {
         "level": "proof",
+        "canary_units": ["custom", "TestFunction::try_new"],
         "explanation": "PROVED (Verus, unbounded): the real body of `impl Queryable for Value :: extension_custom` (src/query/queryable.rs) meets, for EVERY name and EVERY list of argument "
                        "values, the set-membership reading of the property (contracts/value_world.rs::c14_spec): with exactly two arguments and an array where one is required, "
                        "in(x, L) <=> some element of L equals x; nin = its negation; any_of(A, B) <=> some element of A equals some element of B; none_of = its negation; "
@@ -222,7 +223,9 @@ def canaries(prop: str, tier: str, units: dict, unames: list[str]) -> list:
     """vacuity guard: a world whose designated postcondition is negated must FAIL.  If the requires were
     contradictory, or the function body unreachable, the negated clause would verify too."""
     res = []
-    for n in unames:
+    # the units whose contracts carry the property come first (the quick tier negates the first two)
+    first = [n for n in PROPS.get(prop, {}).get("canary_units", []) if n in unames]
+    for n in first + [n for n in unames if n not in first]:
         u = units[n]
         posts = [f"{n}.post.{c}" for c, _ in u.ensures]
         if not posts or u.trait_method:
